@@ -954,6 +954,23 @@ ctx_probe!(ctx_wi, |c, d, e, f| {
     let (q, k) = x86_64::instructions::interrupts::without_interrupts(|| c.overflowing_add(d));
     std::hint::black_box((q.wrapping_add(k as u64), e, f));
 });
+ctx_probe!(ctx_cr4_carry, |c, d, e, f| {
+    // a carry produced before a typed write and consumed after it
+    let (s2, k2) = c.overflowing_add(d);
+    Cr4::write(Cr4Flags::from_bits_truncate(e));
+    Dr0::write(s2.wrapping_add(k2 as u64));
+    std::hint::black_box(f);
+});
+ctx_probe!(ctx_wi_carry, |c, d, e, f| {
+    // the closure's result includes a carry; the caller branches on it
+    let (q, k) = x86_64::instructions::interrupts::without_interrupts(|| c.overflowing_add(d));
+    if k {
+        Dr1::write(q);
+    } else {
+        Dr0::write(q);
+    }
+    std::hint::black_box((e, f));
+});
 ctx_probe!(ctx_cs_twice, |c, d, e, f| {
     CS::set_reg(SegmentSelector(c as u16));
     CS::set_reg(SegmentSelector(c as u16));
@@ -965,9 +982,71 @@ ctx_probe!(ctx_xcr0, |c, d, e, f| {
     std::hint::black_box((x, c, d, e, f));
 });
 
+/// lean shapes (no other live state): a carry across a typed CR4 write; a closure's carry
+#[inline(never)]
+pub extern "C" fn lean_cr4_carry(base: u64, offset: u64, cr4: u64) {
+    let (sum, carry) = base.overflowing_add(offset);
+    unsafe { Cr4::write(Cr4Flags::from_bits_truncate(cr4)) };
+    Dr0::write(sum.wrapping_add(carry as u64));
+}
+#[inline(never)]
+fn lean_wi_carry(counter: &mut u64, by: u64, wraps: &mut u32) {
+    let (sum, carry) = x86_64::instructions::interrupts::without_interrupts(|| counter.overflowing_add(by));
+    *counter = sum;
+    if carry {
+        *wraps += 1;
+    }
+}
+/// the closure publishes its sum (volatile) inside the critical section and returns only the carry
+#[inline(never)]
+fn lean_wi_carry_v(counter: &mut u64, by: u64, wraps: &mut u32) {
+    let carry = x86_64::instructions::interrupts::without_interrupts(|| {
+        let (sum, carry) = counter.overflowing_add(by);
+        unsafe { core::ptr::write_volatile(counter, sum) };
+        carry
+    });
+    if carry {
+        *wraps += 1;
+    }
+}
+#[inline(never)]
+pub extern "C" fn lean_port_w32(_x: u64, _y: u64, value: u32, port: u16) {
+    unsafe { x86_64::instructions::port::Port::<u32>::new(port).write(value) };
+}
+
 pub fn run_ctx(out: &mut Out, r: &mut Rng) {
+    for k in 0..8u64 {
+        let base = if k % 2 == 0 { u64::MAX - r.below(100) } else { r.below(1 << 50) };
+        let off = 1 + r.below(1000);
+        let cr4 = r.next();
+        set(Reg::Cr(4), 0);
+        cpu::drain();
+        let ok = catch(|| lean_cr4_carry(base, off, cr4)).is_some();
+        let ins = cpu::drain();
+        out.emit(Ev::new("lean").str("name", "cr4_carry").words("args", &[base, off, cr4]).str("k", if ok { "ok" } else { "panic" }).words("got", &[0, 0]).raw("instrs", &cpu::instrs_json(&ins)));
+        let (mut counter, mut wraps) = (base, 5u32);
+        cpu::IF.store(1, std::sync::atomic::Ordering::SeqCst);
+        x86_64::registers::rflags::VERIF_IF_OVERLAY.store(2, std::sync::atomic::Ordering::SeqCst);
+        let ok = catch(|| lean_wi_carry(&mut counter, off, &mut wraps)).is_some();
+        x86_64::registers::rflags::VERIF_IF_OVERLAY.store(0, std::sync::atomic::Ordering::SeqCst);
+        cpu::drain();
+        out.emit(Ev::new("lean").str("name", "wi_carry").words("args", &[base, off, 0]).str("k", if ok { "ok" } else { "panic" }).words("got", &[counter, wraps as u64]).raw("instrs", "[]"));
+        let (mut counter, mut wraps) = (base, 5u32);
+        x86_64::registers::rflags::VERIF_IF_OVERLAY.store(2, std::sync::atomic::Ordering::SeqCst);
+        let ok = catch(|| lean_wi_carry_v(&mut counter, off, &mut wraps)).is_some();
+        x86_64::registers::rflags::VERIF_IF_OVERLAY.store(0, std::sync::atomic::Ordering::SeqCst);
+        cpu::drain();
+        out.emit(Ev::new("lean").str("name", "wi_carry").words("args", &[base, off, 1]).str("k", if ok { "ok" } else { "panic" }).words("got", &[counter, wraps as u64]).raw("instrs", "[]"));
+        let (v, p) = (r.next() as u32, (0x4000 + r.below(0x1000)) as u16);
+        cpu::drain();
+        let ok = catch(|| lean_port_w32(base, off, v, p)).is_some();
+        let ins = cpu::drain();
+        out.emit(Ev::new("lean").str("name", "port_w32").words("args", &[v as u64, p as u64, 0]).str("k", if ok { "ok" } else { "panic" }).words("got", &[0, 0]).raw("instrs", &cpu::instrs_json(&ins)));
+    }
     type P = fn(u64, u64, u64, u64, u64, u64) -> [u64; 4];
-    let probes: [(&str, P); 10] = [
+    let probes: [(&str, P); 12] = [
+        ("cr4_carry", ctx_cr4_carry),
+        ("wi_carry", ctx_wi_carry),
         ("port_w32", ctx_port_w32),
         ("port_w16", ctx_port_w16),
         ("port_r", ctx_port_r),
@@ -984,8 +1063,14 @@ pub fn run_ctx(out: &mut Out, r: &mut Rng) {
             // carry set / clear, operands with all halves populated
             let a = if k % 2 == 0 { u64::MAX - r.below(1000) } else { r.below(1 << 40) };
             let b = 1 + r.below(5000);
+            let carry_cd = k % 3 != 0; // for the *_carry probes: c + d overflows in two of three cases
             let (c, d, e, f) = match *name {
                 "port_w32" | "port_w16" | "port_r" => (r.next(), 0x3000 + r.below(0x1000), r.next(), 0x5000 + r.below(0x1000)),
+                "cr4_carry" | "wi_carry" => {
+                    let c = r.next() | (1 << 63);
+                    let d = if carry_cd { (1u64 << 63) + r.below(1 << 40) } else { r.below(1 << 40) & !(1 << 63) & (!c) };
+                    (c, d, r.next(), r.next())
+                }
                 "cs_twice" => (((20 + r.below(4000)) << 3) & 0xffff, ((20 + r.below(4000)) << 3) & 0xffff, r.next(), r.next()),
                 _ => (r.next(), r.next(), r.next(), r.next()),
             };
